@@ -75,3 +75,25 @@ Definition used_at (k : Z) (d : pystr) (es : list medge) : nat :=
      end) 0%nat es.
 Definition left_at (m : mol) (k : Z) (d : pystr) : nat :=
   match find_node k (m_nodes m) with Some n => cnt d (bonding_list (n_bonding n)) | None => 0%nat end.
+
+(** ** copies of templates inside the molecule (copy_iso_template) *)
+(** node [n] is the copy of template node [t], the i-th node of a copy merged at key offset [off]
+    with fragment offset [fo]: key by position, membership, ALL other attributes identical, and
+    its descriptors are what is left of the template's (some consumed or withdrawn) *)
+Definition copy_of (sp : Z * Z * nat * tnode) (n : mnode) : Prop :=
+  let '(fo, off, i, t) := sp in
+  n_key n = off + 1 + Z.of_nat i /\ n_fragid n = t_fragid t + fo /\ n_attrs n = t_attrs t /\
+  forall d, (cnt d (bonding_list (n_bonding n)) <= cnt d (bonding_list (t_bonding t)))%nat.
+Record block := { b_tpl : template; b_off : Z; b_fo : Z }.
+Fixpoint spec_nodes (fo off : Z) (i : nat) (ts : list tnode) : list (Z * Z * nat * tnode) :=
+  match ts with [] => [] | t :: r => (fo, off, i, t) :: spec_nodes fo off (Datatypes.S i) r end.
+Definition block_spec (b : block) : list (Z * Z * nat * tnode) := spec_nodes (b_fo b) (b_off b) 0 (f_nodes (b_tpl b)).
+(** the template's edges through the merge correspondence (attributes, hence orders, unchanged) *)
+Definition block_edges (b : block) : list medge :=
+  match mk_edges (mk_corr (b_off b) 0 (f_nodes (b_tpl b))) (f_edges (b_tpl b)) with Ok es => es | Err _ => [] end.
+Definition is_template_edge (e : medge) : bool := match e_bonding e with None => true | Some _ => false end.
+(** the molecule is, block by block, the copies of the templates [bs]; its edges without 'bonding'
+    are, block by block, the templates' edges through the correspondence *)
+Definition copies_of (m : mol) (bs : list block) : Prop :=
+  Forall2 copy_of (concat (map block_spec bs)) (m_nodes m) /\
+  filter is_template_edge (m_edges m) = concat (map block_edges bs).
